@@ -11,6 +11,16 @@ From PV Require Import Base.NpSort Base.NpSearch C11.Model C11.Spec C11.Proofs.
 Import ListNotations.
 Open Scope Z_scope.
 
+(* What "the input spikes" are: s is in tagged_concat ps exactly when probe number t_probe s has, at index t_idx s of its
+   four per-spike arrays, the time, amplitude, template id and cluster id that s carries. *)
+Theorem C11_input_spikes : forall (A V F : Type) (ps : list (probe A V F)), Forall wf_len ps -> forall s,
+  In s (tagged_concat ps) <->
+  exists p, nth_error ps (t_probe s) = Some p /\
+    nth_error (p_times p) (t_idx s) = Some (t_time s) /\ nth_error (p_amps p) (t_idx s) = Some (t_amp s) /\
+    nth_error (p_tmpl p) (t_idx s) = Some (t_tmpl s) /\ nth_error (p_clu p) (t_idx s) = Some (t_clu s).
+Proof. exact (@thm_input_spikes). Qed.
+Print Assumptions C11_input_spikes.
+
 (* The merge succeeds and its output spikes are, position by position (Payload), a permutation M of the input spikes:
    every (probe, index) tag occurs exactly once. *)
 Theorem C11_permutation : forall (A V F : Type) (ps : list (probe A V F)), wf ps ->
@@ -104,3 +114,40 @@ Proof.
 Qed.
 Example C11_ex_offsets : map (coff_spec ex_ps) [0; 1; 2; 3]%nat = [0; 5; 7; 11] /\ map (toff_spec ex_ps) [0; 1; 2]%nat = [0; 3; 5].
 Proof. vm_compute. split; reflexivity. Qed.
+
+(* ---- renumbered per-cluster metadata ----
+   For each of the three TSV names f: when the ids listed in the probes' files lie in 0 .. max cluster id of their
+   probe (meta_in_range), the written table maps id + offset_k |-> the (last) value that probe k's file gives to id,
+   for every probe that has the file, and contains nothing else (Meta_spec); it is written iff some present file has a
+   row, its rows are strictly increasing in id, and its header is the header of one of the present files. *)
+Theorem C11_metadata : forall (A V F : Type) (ps : list (probe A V F)), wf ps ->
+  exists m, merge ps = Some m /\ length (m_meta m) = n_meta_files /\
+    forall f, (f < n_meta_files)%nat -> meta_in_range f ps -> Meta_out f ps (nth f (m_meta m) None).
+Proof. exact (@thm_metadata_merge). Qed.
+Print Assumptions C11_metadata.
+
+(* the range hypothesis is needed: a TSV row for an id above the probe's largest spike cluster id lands in the next
+   probe's interval and is overwritten / mis-attributed (probe 0: one cluster 0, its file also lists id 1) *)
+Definition ex_bad : list (probe Z Z Z) :=
+  [ mkprobe [1] [10] [0] [0] [Some (mkmeta 5 [(0, 100); (1, 101)]); None; None];
+    mkprobe [2] [20] [0] [0] [Some (mkmeta 5 [(0, 200)]); None; None] ].
+Theorem C11_metadata_needs_range : wf ex_bad /\ ~ meta_in_range 0 ex_bad /\
+  forall m, merge ex_bad = Some m -> ~ Meta_spec 0 ex_bad (nth 0 (m_meta m) None).
+Proof.
+  split; [|split].
+  - split; [discriminate|]. repeat constructor; cbn; try discriminate; intros c H;
+      repeat (destruct H as [<-|H]; [lia|]); contradiction.
+  - intros H. specialize (H (nth 0 ex_bad (mkprobe [] [] [] [] [])) (mkmeta 5 [(0, 100); (1, 101)]) (1, 101)).
+    cbn in H. assert (0 <= 1 <= 0) by (apply H; auto). lia.
+  - intros m Hm. vm_compute in Hm. injection Hm as <-. intros [Hf _].
+    specialize (Hf 0%nat (nth 0 ex_bad (mkprobe [] [] [] [] [])) (mkmeta 5 [(0, 100); (1, 101)]) 1 101 eq_refl eq_refl eq_refl).
+    vm_compute in Hf. discriminate.
+Qed.
+Print Assumptions C11_metadata_needs_range.
+
+Example C11_ex_meta_in_range : forall f, (f < 3)%nat -> meta_in_range f ex_ps.
+Proof.
+  intros f Hf p mt kv Hp Hm Hkv. unfold meta_of in Hm.
+  destruct Hp as [<-|[<-|[<-|[]]]]; destruct f as [|[|[|f]]]; try lia; cbn in Hm; try discriminate;
+    injection Hm as <-; cbn in Hkv; repeat (destruct Hkv as [<-|Hkv]; [cbn; lia|]); contradiction.
+Qed.
